@@ -333,7 +333,7 @@ class P:
 def fresh_module():
     import importlib.util
 
-    spec = importlib.util.spec_from_file_location("_proc_eqv_fresh", "/repo/src/exo/core/proc_eqv.py", submodule_search_locations=None)
+    spec = importlib.util.spec_from_file_location("_proc_eqv_fresh", common.REPO + "/src/exo/core/proc_eqv.py", submodule_search_locations=None)
     mod = importlib.util.module_from_spec(spec)
     mod.__package__ = "exo.core"
     spec.loader.exec_module(mod)
